@@ -645,7 +645,8 @@ func shippedNativeFuzz(c *drv.Ctx, l *lab.Lab, sh []shipped, d time.Duration) {
 		c.AddViolation(drv.Violation{Property: c.ID, Kind: "shipped-input", What: "a seed input of the shipped parsers fails in the fuzz target:\n" + tail(res.Output, 1500), Case: shippedCase{}})
 		return
 	}
-	gi := int(res.Args[0][0]) % len(sh)
+	gn, _ := strconv.Atoi(res.Args[0])
+	gi := gn % len(sh)
 	cs := shippedCase{Grammar: sh[gi].Dir, Input: proto.QStr(res.Args[1])}
 	what := judgeShipped(runShippedInputs(c, l, []shippedCase{cs})[0])
 	if what == "" {
